@@ -18,7 +18,15 @@ def _with_state_lock(func):
 
     async def wrapper(obj: 'TransferState', *args, **kwargs):
         async with obj.transfer._state_lock:
-            result = await func(*args, **kwargs)
+            current = obj.transfer.state
+            if current is obj:
+                result = await func(*args, **kwargs)
+            else:
+                # The transfer changed state while waiting for the lock: the
+                # transition should be decided by the current state and not
+                # by the state the transfer was in when the call was made
+                current_func = getattr(type(current), func.__name__)
+                result = await current_func(current, *args, **kwargs)
         return result
 
     return wrapper
